@@ -28,6 +28,8 @@ func init() {
 				N:     sys.n() + len(gen.OpaqueKinds)*40 + nPair + size(tier, 150000, 12000000),
 				Setup: func(c *harness.Ctx) { hooksOn() },
 				Run: func(c *harness.Ctx, k int) {
+					hooksAlternate(k) // key / container poison also hides a library that wrongly re-uses a recycled buffer's content: every second case runs without
+
 					r := c.Rand()
 					var d *diffCase
 					var doc interface{}
